@@ -551,6 +551,20 @@ func classify(toks []tok, decos []uint8, final int, m rmode) string {
 			return "deco=" + jsonref.DecorationNames[d]
 		}
 	}
+	// every instance of one decoration kind removed at once
+	for k := 1; k < len(jsonref.Decorations); k++ {
+		nd := append([]uint8{}, decos...)
+		n := 0
+		for i := range nd {
+			if int(nd[i]) == k {
+				nd[i] = 0
+				n++
+			}
+		}
+		if n > 1 && passes(toks, nd, final, m) {
+			return "deco=" + jsonref.DecorationNames[k]
+		}
+	}
 	// every string neutralised at once
 	nt := toks
 	for _, f := range strFeatures {
@@ -780,8 +794,9 @@ func evalBig(c *hl.Ctx, bc bigCase, m rmode) {
 		}
 		return
 	}
-	// smallest distinguishing feature: does the same shape pass at 1000 bytes? in whole mode?
-	feat := "plain-document"
+	// smallest distinguishing feature: the read mode (same document read whole passes), else the size
+	// (same shape at 1000 bytes passes), else the comment variant (same size without it passes), else the kind.
+	feat := "kind=" + bc.Kind
 	small := bc
 	small.N = 1000
 	st, sp := bigDoc(small)
@@ -790,7 +805,13 @@ func evalBig(c *hl.Ctx, bc bigCase, m rmode) {
 	if sm.Kind == rSplit && sm.K >= len(st) {
 		sm.K = len(st) / 2
 	}
-	if judge(st, sw, hc, sm).clause == "" {
+	nov := bc
+	nov.Variant = 0
+	nt, np := bigDoc(nov)
+	nw, _ := wantOf(np)
+	if m.Kind != rWhole && judge(text, want, hc, rmode{Kind: rWhole}).clause == "" {
+		feat = m.feature()
+	} else if judge(st, sw, hc, sm).clause == "" {
 		cls := "marker-free"
 		switch bc.Kind {
 		case "string":
@@ -801,8 +822,8 @@ func evalBig(c *hl.Ctx, bc bigCase, m rmode) {
 			cls = "total"
 		}
 		feat = "span>=64KiB/" + cls
-	} else if m.Kind != rWhole && judge(text, want, hc, rmode{Kind: rWhole}).clause == "" {
-		feat = m.feature()
+	} else if bc.Variant != 0 && judge(nt, nw, strings.HasSuffix(bc.Kind, "comment"), m).clause == "" {
+		feat = []string{"", "deco=line", "final-line-comment"}[bc.Variant]
 	}
 	c.Violation(v.clause+"/"+feat, fmt.Sprintf("%d-byte document of kind %q (variant %d: %s), read %s: %s", bc.N, bc.Kind, bc.Variant, clip(text), m, v.detail),
 		caseT{Fam: "size", Big: &bc, Mode: m})
